@@ -81,7 +81,7 @@ def make_spaces(bspline, rng, d, two, cfg=None):
     return tuple(kvs0), (tuple(kvs1) if two else None)
 
 
-def make_geo(bspline, geometry, rng, kvs, d, g, spacetime, nurbs):
+def make_geo(bspline, geometry, rng, kvs, d, g, spacetime, nurbs, orient=1):
     """B-spline / NURBS map with Jacobian determinant bounded away from 0 (checked by the caller)."""
     gk = []
     for kv in kvs:
@@ -115,6 +115,13 @@ def make_geo(bspline, geometry, rng, kvs, d, g, spacetime, nurbs):
         pert[..., d - 1] = 0
         pert = np.broadcast_to(pert[0:1], pert.shape).copy()
     C = C @ A.T + pert
+    if orient < 0:
+        # orientation-reversing map (det J < 0 everywhere): reflect the x coordinate, or swap two space coordinates
+        nspace = (d - 1) if spacetime else min(d, g)
+        if nspace >= 2 and rng.random() < 0.5:
+            C[..., [0, 1]] = C[..., [1, 0]]
+        else:
+            C[..., 0] = -C[..., 0]
     if nurbs:
         W = 1.0 + np.array([rng.randint(0, 8) / 16.0 for _ in range(int(np.prod(n)))]).reshape(n)
         if spacetime:
@@ -191,11 +198,13 @@ def run_instance(mods, spec, header, forest, asmcls, seed, max_pairs, selftest_s
     geo = None
     for attempt in range(20):
         nurbs = rng.random() < 0.4
+        orient = (cfg or {}).get('orient') or (-1 if rng.random() < 0.35 else 1)
         if cfg and cfg.get('geo') == 'identity' and g == d:
             nurbs = False
+            orient = 1
             cand = geometry.unit_cube(dim=d)
         else:
-            cand = make_geo(bspline, geometry, rng, kvs0, d, g, header['spacetime'], nurbs)
+            cand = make_geo(bspline, geometry, rng, kvs0, d, g, header['spacetime'], nurbs, orient)
         grid = []
         for ax, kv in enumerate(kvs0):
             if boundary is not None and ax == boundary[0]:
@@ -205,8 +214,9 @@ def run_instance(mods, spec, header, forest, asmcls, seed, max_pairs, selftest_s
         J = cand.grid_jacobian(tuple(grid))
         if g == d:
             det = np.linalg.det(J)
-            if det.min() > 0.2:
+            if np.abs(det).min() > 0.2 and (det.min() > 0) == (det.max() > 0):
                 geo = cand
+                res['orientation'] = 1 if det.min() > 0 else -1
                 break
         else:
             gram = np.linalg.det(np.swapaxes(J, -1, -2) @ J)
@@ -679,6 +689,41 @@ def run_layout(payload):
                 lhs, op, rhs = mm.groups()
                 res.append([lhs, op, re.findall(r'(?<![\w\.])([A-Za-z_]\w*(?:\[\d+\])?)', rhs)])
             return res
+        # the printed code of every emitted scalar expression together with its expression tree (operators,
+        # negations, function calls; leaves as printed): the harness parses the text with C precedence and
+        # compares the trees exactly
+        def skel(e):
+            if isinstance(e, vform.ScalarOperExpr):
+                return ['O', e.oper] + [skel(c) for c in e.children]
+            if isinstance(e, vform.NegExpr):
+                return ['N', skel(e.x)]
+            if isinstance(e, vform.BuiltinFuncExpr):
+                return ['F', gen.func_to_code.get(e.funcname, e.funcname), skel(e.x)]
+            return ['L', gen.gencode(e)]
+        roots = []
+        for e in V.exprs:
+            roots += list(e) if not e.is_scalar() else [e]
+        for var in list(V.kernel_deps) + list(V.precomp):
+            if getattr(var, 'expr', None) is not None:
+                ex = var.expr
+                if ex.is_scalar():
+                    roots.append(ex)
+                elif ex.is_vector():
+                    roots += [ex[k] for k in range(ex.shape[0])]
+                else:
+                    roots += [ex[i, j] for i in range(ex.shape[0]) for j in range(ex.shape[1])]
+        printed = []
+        budget = 60000
+        for e in roots[:80]:
+            try:
+                txt = gen.gencode(e)
+            except Exception:
+                continue
+            budget -= len(txt)
+            if budget < 0:
+                break
+            printed.append([txt, skel(e)])
+        r['printed'] = printed
         r['kernel_stmts'] = stmts(kern)
         r['pre_stmts'] = stmts(pre)
         # the number of Gauss nodes per span the generated __init__ computes, evaluated on degree lists
